@@ -276,6 +276,9 @@ var c17Stmts = []c17Stmt{
 	{"TP1", "text TP1 {\n\tporyswitch(CV) {\n\t\tA: \"tp1 a\"\n\t\t_: \"tp1 other\"\n\t}\n}\n", regexp.MustCompile(`^TP1$`), true},
 	{"TP2", "text TP2 {\n\tporyswitch(CV) {\n\t\tB: ascii\"tp2 b\"\n\t\t_: \"tp2 other\"\n\t}\n}\n", regexp.MustCompile(`^TP2$`), true},
 	{"MP", "movement MP {\n\tmp1\n\tporyswitch(CV) {\n\t\tB: mp_b\n\t\t_: mp_other\n\t}\n}\n", regexp.MustCompile(`^MP$`), true},
+	// texts formatted with a font whose config entry has no numLines (the documented default applies to every one of them)
+	{"TG1", "text TG1 {\n\tformat(\"aaa bbb ccc ddd\", \"g\")\n}\n", regexp.MustCompile(`^TG1$`), true},
+	{"TG2", "text TG2 {\n\tformat(\"eee fff ggg hhh\", \"g\")\n}\n", regexp.MustCompile(`^TG2$`), true},
 	{"RAW", "raw `\nRawLabel:\n\t.byte 1\n`\n", nil, true},
 	{"CONST", "const UNUSED_K = 77\n", nil, true},
 }
@@ -354,7 +357,7 @@ func c17DictStmts() []c17Stmt {
 func c17Context(r *harness.Run, tier string) {
 	// (the file lives in the run's scratch directory, which is removed after Finish has re-checked every report)
 	c17CtxFont = filepath.Join(c17ScratchDir, "ctxfont.json")
-	os.WriteFile(c17CtxFont, []byte(`{"defaultFontId": "f", "fonts": {"f": {"widths": {" ": 1, "a": 1, "e": 2}, "maxLineLength": 12, "numLines": 2, "cursorOverlapWidth": 0}}}`), 0o644)
+	os.WriteFile(c17CtxFont, []byte(`{"defaultFontId": "f", "fonts": {"f": {"widths": {" ": 1, "a": 1, "e": 2}, "maxLineLength": 12, "numLines": 2, "cursorOverlapWidth": 0}, "g": {"widths": {" ": 10, "default": 10}, "maxLineLength": 40, "cursorOverlapWidth": 0}}}`), 0o644)
 	if len(c17Stmts) > 0 && c17Stmts[len(c17Stmts)-1].name != "FE" {
 		c17Stmts = append(c17Stmts, c17DictStmts()...)
 	}
@@ -739,7 +742,7 @@ func runC17(tier string) int {
 		"'fresh process' baselines are computed by subprocesses that run exactly one compilation",
 		"context independence compares a statement's emitted section with every hoisted text / movement label replaced by the data it denotes (numbering and sharing are free, content is not)")
 	return r.Finish(r.Get("evaluations"), r.Get("nontrivial"),
-		"(1) schedules: for every corpus input (many-chunk scripts, label clashes, unknown-font errors against 2- and 3-font configs, all small 'general' programs, optimize on/off) every execution with <= d deviating map-iteration choice points (all n! orders for n <= 4, else reverse, rotations, adjacent transpositions), each run twice; (2) histories: every sequence of <= k compilations (k = 2 over all 576 actions, 3 over 72, thorough: 4 and 5 over 18) over 9 inputs x optimize x 2 font files x default font id {config default, -f} x default line length {config, -l} x 2 switch assignments x 2 command configs sharing the maps, each result compared with the same compilation as first action of a fresh process; (3) every top-level statement of a 16-statement family (scripts, texts, movements, marts, mapscripts, raw, const; texts and a movement whose content a poryswitch selects; statements named by the dictionary) among every ordered selection of <= m other statements at every position; (4) files with N texts, N movements, N marts and N scripts for every N up to the bound in the coverage in 4 interleavings: every data block is the block of the statement compiled alone; (5) for each of 31 statement templates a file of N scripts holding it: the output is the outputs of the scripts compiled alone, in order; states/transitions = executions; non-trivial = a deviating schedule, a history of length >= 2 or a context with a neighbour")
+		"(1) schedules: for every corpus input (many-chunk scripts, label clashes, unknown-font errors against 2- and 3-font configs, all small 'general' programs, optimize on/off) every execution with <= d deviating map-iteration choice points (all n! orders for n <= 4, else reverse, rotations, adjacent transpositions), each run twice; (2) histories: every sequence of <= k compilations (k = 2 over all 576 actions, 3 over 72, thorough: 4 and 5 over 18) over 9 inputs x optimize x 2 font files x default font id {config default, -f} x default line length {config, -l} x 2 switch assignments x 2 command configs sharing the maps, each result compared with the same compilation as first action of a fresh process; (3) every top-level statement of an 18-statement family (scripts, texts, movements, marts, mapscripts, raw, const; texts and a movement whose content a poryswitch selects; two texts formatted with a font that has no numLines entry; statements named by the dictionary) among every ordered selection of <= m other statements at every position; (4) files with N texts, N movements, N marts and N scripts for every N up to the bound in the coverage in 4 interleavings: every data block is the block of the statement compiled alone; (5) for each of 31 statement templates a file of N scripts holding it: the output is the outputs of the scripts compiled alone, in order; states/transitions = executions; non-trivial = a deviating schedule, a history of length >= 2 or a context with a neighbour")
 }
 
 // c17ManyDataStatements: files with N texts, N movements, N marts and N small scripts (all different, some texts and
